@@ -85,7 +85,84 @@ class _Frame(PyModel):
         return _Series(self.interp, out)
 
 
+class _Col(PyModel):
+    """A column of a small DataFrame: element-wise comparison with a scalar, astype('float'), iteration."""
+
+    def __init__(self, interp, items):
+        self.interp, self.items = interp, list(items)
+
+    def __iter__(self):
+        return iter(self.items)
+
+    def __len__(self):
+        return len(self.items)
+
+    def __ne__(self, other):
+        import ast as _ast
+        return _Col(self.interp, [self.interp.truth(self.interp._compare(_ast.NotEq(), x, other, None)) for x in self.items])
+
+    def __eq__(self, other):
+        import ast as _ast
+        return _Col(self.interp, [self.interp.truth(self.interp._compare(_ast.Eq(), x, other, None)) for x in self.items])
+
+    __hash__ = None
+
+    def astype(self, kind):
+        if kind not in ('float', float):
+            raise Unmodelled(f'Series.astype({kind!r})')
+        out = []
+        for x in self.items:
+            if isinstance(x, Rec):
+                found, x = self.interp._builtin_on_rec('float', [x])
+                if not found:
+                    raise Unmodelled('astype(float) of an instance without __float__')
+            out.append(float(x))
+        return _Col(self.interp, out)
+
+
+class _DF(PyModel):
+    """pandas.DataFrame({'a': [...], 'b': [...]}) as XIRR uses it: column access, boolean-mask rows, sort_values, column store."""
+
+    def __init__(self, interp, cols):
+        self.interp, self.cols = interp, {k: list(v) for k, v in cols.items()}
+
+    def __getitem__(self, key):
+        if isinstance(key, str):
+            return _Col(self.interp, self.cols[key])
+        if isinstance(key, _Col):
+            keep = [bool(b) for b in key.items]
+            return _DF(self.interp, {k: [x for x, b in zip(v, keep) if b] for k, v in self.cols.items()})
+        raise Unmodelled(f'DataFrame[{key!r}]')
+
+    def __setitem__(self, key, col):
+        self.cols[key] = list(col.items if isinstance(col, _Col) else col)
+
+    def sort_values(self, by, ascending=True):
+        import ast as _ast
+        n = len(next(iter(self.cols.values()))) if self.cols else 0
+        order = []
+        for i in range(n):          # stable insertion sort with the elements' own <
+            j = len(order)
+            while j > 0 and self.interp.truth(self.interp._compare(_ast.Lt(), self.cols[by][i], self.cols[by][order[j - 1]], None)):
+                j -= 1
+            order.insert(j, i)
+        if not ascending:
+            order.reverse()
+        return _DF(self.interp, {k: [v[i] for i in order] for k, v in self.cols.items()})
+
+
 def pandas_models():
+    def dataframe(interp, data=None, **kw):
+        if kw or not isinstance(data, dict) or not all(isinstance(v, (list, tuple)) for v in data.values()):
+            raise Unmodelled('pandas.DataFrame(...) other than from a dict of lists')
+        return _DF(interp, data)
+    dataframe.wants_interp = True
+    out = _pandas_concat_models()
+    out['ext:pandas.DataFrame'] = dataframe
+    return out
+
+
+def _pandas_concat_models():
     def concat(interp, arrays, axis=0, **kw):
         if axis != 1 or kw:
             raise Unmodelled('pandas.concat other than side by side')
